@@ -416,3 +416,46 @@ func (r *storeRun) orderSig() string {
 	}
 	return b.String()
 }
+
+// accountingProbe delivers, to a mailbox of its own, a message that fills a size-limited memory
+// store exactly to its limit: if the enforcer's running total equals what the store holds,
+// nothing else leaves the store and the message stays.
+func (r *storeRun) accountingProbe() string {
+	st := r.h.Store
+	limit := int64(r.h.Spec.MaxKB) * 1024
+	before := map[string]string{}
+	var live int64
+	for _, mb := range storeBoxes {
+		ms, err := st.GetMessages(mb)
+		if err != nil {
+			return ""
+		}
+		var ids []string
+		for _, m := range ms {
+			ids = append(ids, m.ID())
+			live += m.Size()
+		}
+		before[mb] = strings.Join(ids, ",")
+	}
+	room := limit - live
+	if room < 40 {
+		return ""
+	}
+	if _, err := st.AddMessage(sys.Delivery("zz-probe", "p@x.test", []string{"p@x.test"}, "probe", sizedBody(int(room)), time.Now())); err != nil {
+		return "the probe delivery failed: " + err.Error()
+	}
+	for _, mb := range storeBoxes {
+		ms, _ := st.GetMessages(mb)
+		var ids []string
+		for _, m := range ms {
+			ids = append(ids, m.ID())
+		}
+		if got := strings.Join(ids, ","); got != before[mb] {
+			return fmt.Sprintf("the store held %d of %d bytes; a %d-byte message (which fits exactly) was delivered to another mailbox, and mailbox %q went from [%s] to [%s]: the size enforcer's running total has drifted from what the store holds", live, limit, room, mb, before[mb], got)
+		}
+	}
+	if ms, _ := st.GetMessages("zz-probe"); len(ms) != 1 {
+		return fmt.Sprintf("the store held %d of %d bytes; a %d-byte message (which fits exactly) was evicted by its own delivery: the size enforcer's running total has drifted", live, limit, room)
+	}
+	return ""
+}
